@@ -437,7 +437,7 @@ func (s *r2State) collectPredicates(entries []core.Entry) map[string][]*r2Pred {
 					}
 				case core.KRecv:
 					if !ev.InSelect {
-						if w := identVar(ev.Chan, ev.Frame); w != nil {
+						if w := iv(ev.Chan, ev.Frame); w != nil {
 							record(i, ev, w)
 						}
 					}
